@@ -461,6 +461,76 @@ def enum_small(maxn):
     return out
 
 
+LONG_SHIFT = {0: "", 1: "l", 2: "lc", 3: "b", 4: "bl", 5: "blc", 6: "b1l", 7: "b1lc", 8: "b2"}
+
+
+def long_doc_graphs(filler, shift, n):
+    """a native document whose graph starts sweep the 1024-token chunk boundaries of the look-ahead buffer:
+    a leading one-node graph of 7 + `shift` tokens (one token more per step: alignment, constant, type block,
+    property pairs) followed by `n` one-node graphs of exactly `filler` tokens (7: no top, 9: with top)"""
+    f = LONG_SHIFT[shift]
+    props = [("TENSE", "past"), ("MOOD", "indicative")][:(1 if "1" in f else 2 if "2" in f else 0)]
+    lead = je(None, [jn("x0", "lead", "e" if "b" in f else None, [], props, "K" if "c" in f else None,
+                        {"k": "c", "d": [0, 4]} if "l" in f else None)])
+    docs = [lead]
+    for i in range(n):
+        nid = ["a", "x%d" % i, "_%d" % i, "e2"][i % 4]
+        docs.append(je(nid if filler == 9 else None, [jn(nid, ["p", "_rain_v_1", "named"][i % 3])]))
+    return docs
+
+
+def long_graph(n, top_at):
+    """one graph with > 1024 tokens: a chain with a few isolated nodes, top somewhere in the middle"""
+    nodes = []
+    for i in range(n):
+        if i % 17 == 5:
+            edges = []
+        else:
+            edges = [("ARG1", "x%d" % ((i + 1) % n))]
+        nodes.append(jn("x%d" % i, "p%d" % (i % 7), "e" if i % 3 == 0 else None, edges,
+                        [("TENSE", "past")] if i % 3 == 0 else [], "K" if i % 5 == 0 else None,
+                        {"k": "c", "d": [i, i + 1]} if i % 2 else None))
+    return je(None if top_at is None else "x%d" % top_at, nodes)
+
+
+def expand(case):
+    """the compact deterministic long cases are expanded to ordinary docs / native cases"""
+    k = case["kind"]
+    if k == "longdoc":
+        return {"kind": "docs", "docs": long_doc_graphs(case["filler"], case["shift"], case["n"]), "opts": case["opts"],
+                "fmt": "native"}
+    if k == "longgraph":
+        return {"kind": "native", "eds": long_graph(case["n"], case["top"]), "opts": case["opts"]}
+    return case
+
+
+def long_cases():
+    V = [{"properties": True, "lnk": True, "show_status": False, "indent": True},
+         {"properties": True, "lnk": True, "show_status": True, "indent": False},
+         {"properties": True, "lnk": True, "show_status": False, "indent": False},
+         {"properties": False, "lnk": False, "show_status": True, "indent": True}]
+    out = []
+    for filler, n in ((7, 300), (9, 236)):
+        for shift in range(9):
+            # with properties/lnk off the leading graph loses its extra tokens: those vectors only for shift 0
+            for o in (V[shift % 3], V[(shift + 1) % 3]):
+                out.append({"kind": "longdoc", "filler": filler, "shift": shift, "n": n, "opts": o})
+        out.append({"kind": "longdoc", "filler": filler, "shift": 0, "n": n, "opts": V[3]})
+    for o in (V[0], V[1]):
+        out.append({"kind": "longgraph", "n": 170, "top": 80, "opts": o})
+    out.append({"kind": "longgraph", "n": 320, "top": None, "opts": V[2]})
+    return out
+
+
+def graph_start_offsets(toks):
+    """positions (mod 1024) of the `{` tokens that open a graph"""
+    out = []
+    for i, (name, _) in enumerate(toks):
+        if name == "LBRACE" and (i == 0 or toks[i - 1][0] in ("RBRACE", "IDENTIFIER")):
+            out.append(i)
+    return out
+
+
 def fixed_cases():
     """the shapes the property text names, as hand-written cases"""
     L = lambda a, b: {"k": "c", "d": [a, b]}   # noqa: E731
@@ -563,7 +633,7 @@ class C03(Check):
 
     # ---- cases
     def cases(self, rng, tier, n):
-        out = fixed_cases()
+        out = fixed_cases() + long_cases()
         small = enum_small(2 if tier == "quick" else 3)
         for g in small:
             for o in status_opts():
@@ -634,6 +704,7 @@ class C03(Check):
 
     # ---- implementation
     def impl(self, case):
+        case = expand(case)
         k = case["kind"]
         if k == "native":
             e = eds_of_j(case["eds"])
@@ -701,6 +772,7 @@ class C03(Check):
 
     # ---- model
     def model_request(self, case):
+        case = expand(case)
         k = case["kind"]
         if k == "native":
             e = eds_of_j(case["eds"])
@@ -736,6 +808,7 @@ class C03(Check):
         return None
 
     def model_expected(self, case, res):
+        case = expand(case)
         if case["kind"] == "native" and "text" in res:
             e = eds_of_j(case["eds"])
             if not lexable(e, case["opts"]):
@@ -757,7 +830,11 @@ class C03(Check):
 
         def fail(clause, detail=None):
             fails.append({"clause": clause, "detail": detail})
+        long = case["kind"] in ("longdoc", "longgraph")
+        case = expand(case)
         k = case["kind"]
+        if long and isinstance(res, dict) and ("err" in res or "err" in (res.get("dec") or {})):
+            fail("native: a long document / graph cannot be written and read back", repr(res.get("err") or res["dec"]))
         if k == "native":
             self._oracle_native(case, fail)
         elif k == "docs":
@@ -772,6 +849,70 @@ class C03(Check):
     def _in_scope(e, o):
         return bool(lexable(e, o) and case_stable(e) and ids_distinct(e) and targets_ok(e) and types_in_scope(e)
                     and (e.nodes or e.top is None))
+
+    def _purity(self, fmt, mod, e, base_kw, fail, reencode_equal, flip_ok=True):
+        """calls interleaved over indent settings and the single / list API: every repeated call with the same
+        (graph, options) returns exactly the first text, every text decodes to the same graph, the argument is not
+        modified, and the compact re-encoding of decode(t0) is t0 (when `reencode_equal` says it must be)"""
+        before = show(e)
+        first = {}
+        shown = {}
+        flip = dict(base_kw)
+        flip["properties"] = not base_kw["properties"]
+        flip["lnk"] = not base_kw["lnk"]
+        indents = [None, 2, True, 4, False] if fmt != "penman" else [None, 2, True]
+
+        def call(kw, ind, api):
+            key = (tuple(sorted(kw.items())), repr(ind), api)
+            try:
+                if api == "single":
+                    t = mod.encode(e, indent=ind, **kw)
+                    d = mod.decode(t)
+                elif api == "list":
+                    t = mod.dumps([e], indent=ind, **kw)
+                    d = mod.loads(t)[0]
+                else:
+                    t = mod.dumps([e, e], indent=ind, **kw)
+                    ds = mod.loads(t)
+                    if len(ds) != 2 or show(ds[0]) != show(ds[1]):
+                        fail("%s: the same graph twice in one document does not come back as two equal graphs" % fmt,
+                             repr(t))
+                    d = ds[0]
+            except Exception as ex:   # noqa: BLE001
+                fail("%s: repeated call raises" % fmt, "%s %r" % (type(ex).__name__, key))
+                return
+            if key in first and first[key] != t:
+                fail("%s: a repeated call with the same graph and options returns a different text" % fmt,
+                     repr((key, first[key], t)))
+            first.setdefault(key, t)
+            kk = key[0]
+            if kk in shown and shown[kk] != show(d):
+                fail("%s: texts of the same graph under different indentation / API decode differently" % fmt,
+                     repr((key, t)))
+            shown.setdefault(kk, show(d))
+        for rnd in range(2):
+            order = indents if rnd == 0 else list(reversed(indents))
+            for j, ind in enumerate(order):
+                call(base_kw, ind, "single")
+                if flip_ok and j % 2 == rnd:
+                    call(flip, ind, "list")
+                call(base_kw, ind, "list")
+                if j == 1:
+                    call(base_kw, ind, "twice")
+                    if flip_ok:
+                        call(flip, ind, "single")
+        if show(e) != before:
+            fail("%s: encoding modifies its argument" % fmt, repr((before, show(e))))
+        try:
+            t0 = mod.encode(e, indent=None, **base_kw)
+            d0 = mod.decode(t0)
+            if reencode_equal(d0) and mod.encode(d0, indent=None, **base_kw) != t0:
+                fail("%s: compact re-encoding of the decoded graph differs from the first text" % fmt,
+                     repr((t0, mod.encode(d0, indent=None, **base_kw))))
+            if mod.encode(e, indent=None, **base_kw) != t0:
+                fail("%s: a repeated call with the same graph and options returns a different text" % fmt, repr(t0))
+        except Exception as ex:   # noqa: BLE001
+            fail("%s: repeated call raises" % fmt, "%s" % type(ex).__name__)
 
     def _oracle_native(self, case, fail):
         e = eds_of_j(case["eds"])
@@ -859,6 +1000,10 @@ class C03(Check):
                 fail("native: list API differs from single API", repr(s))
         except Exception as ex:   # noqa: BLE001
             fail("native: list API cannot read its own output", "%s: %r" % (type(ex).__name__, s))
+        if len(e.nodes) <= 12:
+            pk = dict(properties=o["properties"], lnk=o["lnk"], show_status=o["show_status"])
+            fo = dict(o, properties=not o["properties"], lnk=not o["lnk"])
+            self._purity("native", edsnative, e, pk, fail, lambda d0: True, flip_ok=self._in_scope(e, fo))
 
     def _oracle_docs(self, case, fail):
         es = [eds_of_j(g) for g in case["docs"]]
@@ -945,6 +1090,8 @@ class C03(Check):
             fail("json: re-encoding the decoded graph is not stable", repr(s2))
         if show(edsjson.loads(edsjson.dumps([e], properties=p, lnk=l, indent=ind))[0]) != show(d):
             fail("json: list API differs from single API", repr(s))
+        self._purity("json", edsjson, e, dict(properties=p, lnk=l), fail,
+                     lambda d0: [n.id for n in d0.nodes] == [n.id for n in e.nodes])
         # re-encoding the decoded graph in the native format reproduces the native text (up to node order)
         o = {"properties": p, "lnk": l, "show_status": True, "indent": True}
         if self._in_scope(e, o) and all((not n.lnk) or n.lnk.type == Lnk.CHARSPAN for n in e.nodes):
@@ -994,6 +1141,9 @@ class C03(Check):
         # (PENMAN text layout is the penman library's business: the property asks for the native re-encoding, below)
         if show(edspenman.loads(edspenman.dumps([e], properties=p, lnk=l, indent=ind))[0]) != show(d):
             fail("penman: list API differs from single API", repr(s))
+        self._purity("penman", edspenman, e, dict(properties=p, lnk=l), fail,
+                     lambda d0: edspenman.to_triples(d0, properties=p, lnk=l) == edspenman.to_triples(e, properties=p,
+                                                                                                      lnk=l))
         # side oracle for the identity parameter: penman keeps the triples the model is stated over
         tr = edspenman.to_triples(e, properties=p, lnk=l)
         back = penman.decode(penman.encode(penman.Graph(tr))).triples
@@ -1036,8 +1186,20 @@ class C03(Check):
     def stats(self, case, res, c):
         def inc(key, by=1):
             c[key] = c.get(key, 0) + by
-        k = case["kind"]
-        inc("kind:" + k)
+        k0 = case["kind"]
+        inc("kind:" + k0)
+        if k0 in ("longdoc", "longgraph"):
+            if isinstance(res, dict) and "text" in res:
+                toks = lex_tokens(uncps(res["text"]))
+                inc("long:tokens>%d" % (1024 * (len(toks) // 1024)))
+                if k0 == "longdoc":
+                    for i in graph_start_offsets(toks):
+                        if i >= 1000:
+                            d = (i + 512) % 1024 - 512
+                            if -4 <= d <= 4:
+                                inc("long:graph-start-at-chunk-boundary%+d" % d)
+            return
+        k = k0
         if k in ("native", "json", "penman"):
             g = case["eds"]
             e = eds_of_j(g)
